@@ -70,6 +70,13 @@ def fanout (c : Cfg) (i : Node) (es : List Entry) : List Msg :=
   let set := verified fe
   ((c.peers i).filter fun p => !set.contains p).map fun p => ⟨p, true, fe⟩
 
+/-- the same loop over whatever the peer table holds when the fan-out runs (the table may have changed since
+the list was verified: Announce / Discover run concurrently) -/
+def fanoutAt (peersNow : List Node) (i : Node) (es : List Entry) : List Msg :=
+  let fe := forwardEntries i es
+  let set := verified fe
+  (peersNow.filter fun p => !set.contains p).map fun p => ⟨p, true, fe⟩
+
 def init : Net := { nodes := fun _ => {} }
 
 /-- The origin: the item was admitted locally (CreateLeaf / Propose), then taken from the pipe, signed and
